@@ -91,6 +91,19 @@ def alloc_sinks(eng, ft, fn):
     return out
 
 
+def _is_checked_read(eng, n):
+    """A status-returning stream read (value through an out-parameter or a
+    Status): its failure means the input is exhausted.  Calls that return the
+    decoded *data* (DecodeNextBit, rans_read) yield zeros past the end and do
+    not bound anything."""
+    if n.get("use") not in ("cond", "ret"):
+        return False
+    if not eng.call_reads_stream(n):
+        return False
+    ret = (n.get("ret") or "").replace("const ", "")
+    return bool(n.get("outs")) or ret.startswith("draco::Status")
+
+
 GROW_SHORT = {"push_back", "emplace_back", "insert", "emplace", "push",
               "push_front", "append", "AddFace", "AddEntryBinary",
               "AddEntryString", "AddEntryInt", "AddEntryDouble", "AddEntry",
@@ -144,8 +157,7 @@ def loopgrow_sinks(eng, ft, fn):
                  strip_targs(n.get("fn") or "").rsplit("::", 1)[-1] in GROW_SHORT]
         if not grows:
             continue
-        reads = [(n, b) for n, b in node_block if b in body and
-                 n.get("use") in ("cond", "ret") and eng.call_reads_stream(n)]
+        reads = [(n, b) for n, b in node_block if b in body and _is_checked_read(eng, n)]
         for g, gb in grows:
             pre = None
             for rn, rb in reads:
@@ -302,4 +314,55 @@ def faceidx_sinks(eng, ft, fn):
                                     "index stored in the face handed to %s" % face_places[pl],
                                     fn.site(n.get("loc", "")), fn))
     out += summary_sinks(eng, ft, fn, "FACEIDX")
+    return out
+
+
+def _loop_conditions(fn, header, body, latches):
+    cand, cur = [], header
+    for _ in range(8):
+        blk = fn.blocks[cur]
+        if blk.cond is None or len(blk.succ) != 2:
+            break
+        cand.append(blk)
+        if blk.term and blk.term.startswith("BinaryOperator"):
+            nxt = [x for x in blk.succ if x is not None and x in body and x != header]
+            if not nxt:
+                break
+            cur = nxt[0]
+            continue
+        break
+    for lb in latches:
+        blk = fn.blocks[lb]
+        if blk.cond is not None and len(blk.succ) == 2 and blk not in cand:
+            cand.append(blk)
+    return [blk for blk in cand if not all(x in body for x in blk.succ if x is not None)]
+
+
+def loopbound_sinks(eng, ft, fn):
+    """Every loop whose own condition compares with a stream-derived value:
+    the bound needs a guard (G1/G2/G3/declared) before the loop, or every
+    iteration performs a checked stream read (so the input bounds the count)."""
+    out = []
+    calls = None
+    for header, body, latches in fn.loops():
+        labs, src = set(), ""
+        for blk in _loop_conditions(fn, header, body, latches):
+            for l, op, r in ft.atoms(blk.cond, True):
+                labs |= ft.labels(l, blk.id) | ft.labels(r, blk.id)
+                src = blk.condsrc
+        if not labs:
+            continue
+        if calls is None:
+            calls = [(n, b) for n, b, rk, ev in fn.nodes() if n.get("k") == "call"]
+        pre = None
+        for n, b in calls:
+            if b in body and _is_checked_read(eng, n) and \
+                    all(fn.block_dominates(b, lt) for lt in latches):
+                pre = "every iteration performs the checked read %s at %s" % (
+                    strip_targs(n.get("fn") or ""), fn.site(n.get("loc", "")))
+                break
+        hb = fn.blocks[header]
+        out.append(Sink("LOOPBOUND", LOOP_KINDS, {"i": None}, header, labs,
+                        "loop `%s`" % src, fn.site(hb.tloc or ""), fn, pre=pre))
+    out += summary_sinks(eng, ft, fn, "LOOPBOUND")
     return out
